@@ -68,6 +68,7 @@ type Frame struct {
 	nextBefore int
 	srcTypes   map[string]types.Type
 	scratchStop *ssa.BasicBlock
+	named       bool // an inlined function whose loops carry annotations: its source names are tracked like the top function's
 }
 
 type beforeDef struct {
@@ -966,7 +967,7 @@ func (fr *Frame) run(b, pred *ssa.BasicBlock, st *State, stop *ssa.BasicBlock) (
 			unsup("block %d of %s visited more than %d times (loop without invariant?)", b.Index, fr.fn.Name(), fr.v.maxVisits)
 		}
 		// loop head with annotation
-		if body, isHead := fr.loopOf[b]; isHead && fr.top && fr.c != nil {
+		if body, isHead := fr.loopOf[b]; isHead && (fr.top || fr.named) && fr.c != nil {
 			if ann, ok := fr.c.Loops[fr.loopOrd[b]]; ok {
 				if !phisDone {
 					fr.evalPhis(b, pred, st)
@@ -990,13 +991,13 @@ func (fr *Frame) run(b, pred *ssa.BasicBlock, st *State, stop *ssa.BasicBlock) (
 						// end-of-iteration obligations are checked before the head's ghost assignments reset anything
 						se := &SpecEnv{fr: fr, st: st, old: fr.entry, vars: fr.params, pkg: fr.fn.Pkg, fn: fr.fn}
 						for _, bi := range ann.BackInv {
-							fr.oblige(st, fmt.Sprintf("loop%d:iteration:%s", fr.loopOrd[b], bi.Name), se.evalBool(bi.E), bi.E.Src)
+							fr.oblige(st, fmt.Sprintf("%s:iteration:%s", fr.loopLabel(b), bi.Name), se.evalBool(bi.E), bi.E.Src)
 						}
 					}
-					fr.applyAnnot(st, ann, fmt.Sprintf("loop%d:preserve", fr.loopOrd[b]), true, false)
+					fr.applyAnnot(st, ann, fr.loopLabel(b)+":preserve", true, false)
 					return nil
 				}
-				fr.applyAnnot(st, ann, fmt.Sprintf("loop%d:entry", fr.loopOrd[b]), true, false)
+				fr.applyAnnot(st, ann, fr.loopLabel(b)+":entry", true, false)
 				fr.havocLoop(st, b, body)
 				fr.bindIter(st, b, body, nil)
 				fr.applyAnnot(st, ann, "", false, true)
@@ -1176,4 +1177,12 @@ func (fr *Frame) bindIter(st *State, h *ssa.BasicBlock, body map[*ssa.BasicBlock
 		st.srcAdr["iter"] = false
 		return
 	}
+}
+
+// loopLabel: "loop<n>" for the function under contract, "<inner function>.loop<n>" for an annotated inlined function
+func (fr *Frame) loopLabel(b *ssa.BasicBlock) string {
+	if fr.named && !fr.top {
+		return fmt.Sprintf("%s.loop%d", fr.fn.Name(), fr.loopOrd[b])
+	}
+	return fmt.Sprintf("loop%d", fr.loopOrd[b])
 }
